@@ -21,7 +21,9 @@ Choices:
    tokens but one, or all while children run — is covered by the final poll and by `childExit`).
  * `.ctl (.jobEnd f fail)` is a step of the control flow only.  The exit of the child was noticed by an earlier
    `childExit`; that order is NOT enforced (an over-approximation: the theorems hold without it).
- * `childExit`, `tokenRead`, `cheat` are steps of the event loop while the control flow is blocked in an await; they
+ * `.ctl (.fin ok)` ("`run` returned") is followed by `do_force_return_tokens` in every caller (explicitly, or from
+   `Drop` when the result is an error): the product drives `TokLoop`'s `.exit` there, with its two assertions.
+ * `childExit`, `childExitEat`, `tokenRead`, `cheat` are steps of the event loop while the control flow is blocked in an await; they
    are accepted at ANY program counter (over-approximation).  For them `.disabled` only means "this cannot happen
    now": the event is rejected, the outcome is not `stuck`.
 -/
@@ -30,7 +32,8 @@ open RedoModel
 
 inductive PEv
   | ctl (e : RunLoop.Ev)   -- a step of the control flow
-  | childExit              -- the event loop notices a child's exit
+  | childExit              -- the event loop notices a child's exit (no IOU taken from the cheat pipe)
+  | childExitEat           -- the event loop notices a child's exit and takes an IOU from the cheat pipe
   | tokenRead              -- the event loop takes a byte from the token pipe
   | cheat                  -- the event loop synthesises a token
   deriving DecidableEq, Repr
@@ -73,8 +76,10 @@ def pstepG (contract : Bool) (c : RunLoop.Cfg) (s : PSt) : PEv → PRes
       | .forked _ => driven s ctl' .start
       | .releaseMine => driven s ctl' .releaseMine
       | .waitAll => driven s ctl' .waitAll
+      | .fin _ => driven s ctl' .exit          -- `run` has returned: `do_force_return_tokens` (explicitly or from `Drop`)
       | _ => .ok { ctl := ctl', tok := s.tok }
   | .childExit => env s .childExit
+  | .childExitEat => env s .childExitEat
   | .tokenRead => env s .tokenRead
   | .cheat => env s .cheat
 
